@@ -120,7 +120,29 @@ class Ctx:
                      % (name, n, minimum), obligation=False)
 
     # ------------------------------------------------------------------
+    def self_test(self):
+        """thorough tier: the registered mutants of this property (small compiling edits of /repo) must each make this check
+        fire with the expected key, on a scratch worktree; a missed mutant means the checker itself regressed"""
+        idxp = os.path.join(VERIF, "mutants", "index.json")
+        if not os.path.exists(idxp) or os.environ.get("JXLV_EVID"):
+            return
+        import subprocess
+        names = [m["name"] for m in json.load(open(idxp)) if m["property"] == self.pid]
+        if not names:
+            return
+        self.rule("SELFTEST", "each registered mutant of this property (tools/make_mutants.py: a small edit that still compiles) makes the "
+                              "check fire with the expected key on a scratch worktree of /repo")
+        p = subprocess.run([sys.executable, os.path.join(VERIF, "tools", "selftest.py")] + names, capture_output=True, text=True)
+        for nm in names:
+            line = [l for l in p.stdout.splitlines() if l.startswith(nm + " ")]
+            if line and " fires" in line[0]:
+                self.ok("SELFTEST", "mutant:" + nm, "fires", nontrivial=True)
+            else:
+                self.bad("SELFTEST", "mutant-missed:" + nm, "the checker no longer detects the registered mutant %s (%s)" % (nm, line[0].strip() if line else "no result"))
+
     def finish(self, explanation, level="other", checker_cmd=None, trusted_base=None):
+        if self.tier == "thorough":
+            self.self_test()
         known = []
         try:
             with open(KNOWN) as fh:
